@@ -117,9 +117,15 @@ def gen_dataset(rng, with_seq=True, ambiguous=False, strings=True, nested=True):
     return {"name": rng.choice(["d", "d", "data", "a1"]), "vars": vars_}
 
 
+def held_as_bytes(b):
+    """every third String array is held as numpy dtype S (what files and pydap's own parsers deliver); a function of the case"""
+    return b["dt"] == "U" and zlib.crc32(repr((b["name"], b["data"][:4])).encode()) % 3 == 0
+
+
 def base_sexp(b):
-    return "(b %s %s (%s) (%s) (%s))" % (hx(b["name"]), hx(DTYPES[b["dt"]]), " ".join(map(str, b["shape"])),
-                                         " ".join(hx(d) for d in b["dims"]), " ".join(map(val_sexp, b["data"])))
+    return "(b %s %s (%s) (%s) (%s)%s)" % (hx(b["name"]), hx(DTYPES[b["dt"]]), " ".join(map(str, b["shape"])),
+                                           " ".join(hx(d) for d in b["dims"]), " ".join(map(val_sexp, b["data"])),
+                                           " S" if held_as_bytes(b) else "")
 
 
 def member_sexp(m):
@@ -145,7 +151,7 @@ def ds_sexp(spec):
 
 def as_array(b):
     dt = np_dtype(b["dt"])
-    if b["dt"] == "U" and zlib.crc32(repr((b["name"], b["data"][:4])).encode()) % 3 == 0:
+    if held_as_bytes(b):
         dt = "S8"       # the same strings held as bytes (what files and pydap's own parsers deliver); a function of the case
     return np.array(b["data"], dtype=dt).reshape(b["shape"]) if b["shape"] else np.array(b["data"][0], dtype=dt)
 
@@ -289,6 +295,114 @@ def gen_hs(rng, shape):
             text += "[%d:%d:%d]" % (a, k, b)
             sl.append(slice(a, b + 1, k))
     return text, tuple(sl)
+
+
+# ------------------------------------------------------------------------------------------------ a variable named twice
+def accepts(shape, sl):
+    """what check_hyperslab accepts against `shape` (own statement of the rule)"""
+    return len(sl) <= len(shape) and all(
+        0 <= s.start and (s.start < n or (n == 0 and s.start == 0)) and s.start < s.stop and s.step >= 1 for s, n in zip(sl, shape))
+
+
+def compose_windows(shape, hs_list):
+    """the part of the underlying array an array shows after the hyperslabs `hs_list` were applied one after the other
+    the way numpy.lib.Arrayterator.__getitem__ composes them (offsets add up unscaled, strides multiply, the stop is
+    the smaller of the two) - written from that rule, not by calling numpy.  Returns the slice tuple on the SOURCE
+    array, or None when some hyperslab is rejected against the shape left by the earlier ones."""
+    win = [(0, n, 1) for n in shape]
+    for sl in hs_list:
+        shown = [len(range(a, z, k)) for a, z, k in win]
+        if not accepts(shown, sl):
+            return None
+        win = [(a + sl[i].start, min(z, a + sl[i].stop), k * sl[i].step) if i < len(sl) else (a, z, k)
+               for i, (a, z, k) in enumerate(win)]
+    return tuple(slice(a, z, k) for a, z, k in win)
+
+
+def hs_text(sl):
+    return "".join("[%d:%d:%d]" % (s.start, s.step, s.stop - 1) if s.step != 1 else
+                   ("[%d]" % s.start if s.stop == s.start + 1 else "[%d:%d]" % (s.start, s.stop - 1)) for s in sl)
+
+
+def gen_hs_any(rng, shape, wide=False):
+    """a hyperslab accepted against `shape` (strides 1..3; `wide`: prefer one that leaves several elements)"""
+    sl = []
+    axes = shape if rng.random() < 0.8 else shape[: rng.randint(1, len(shape))]
+    for n in axes:
+        if n == 0:
+            sl.append(slice(0, rng.choice([1, 2]), rng.choice([1, 2])))
+            continue
+        a = rng.randint(0, (n - 1) // 3 if wide else n - 1)
+        b = rng.choice([n - 1, n, n + 2]) if wide or rng.random() < 0.3 else rng.randint(a, n - 1)
+        k = rng.choice([1, 2, 2, 3])
+        sl.append(slice(a, a + 1, 1) if (not wide and rng.random() < 0.25) else slice(a, max(b, a) + 1, k))
+    return tuple(sl)
+
+
+def gen_repeated_ce(rng, spec, valid=True):
+    """the same array / grid / grid array / structure member named two or three times with hyperslabs of ANY stride.
+    Returns (query, expected) - `expected` as gen_valid_ce gives it, from `compose_windows` - or None when the dataset
+    has nothing to slice.  `valid=False`: the last hyperslab does not fit what the earlier ones left (expected None)."""
+    cands = []
+    for v in spec["vars"]:
+        if v["k"] == "b" and v["shape"]:
+            cands.append(("b", v, v, [v["name"]]))
+        elif v["k"] == "g" and v["array"]["shape"]:
+            cands.append(("g", v, v["array"], [v["name"]]))
+            cands.append(("gm", v, v["array"], [v["name"], v["array"]["name"]]))
+            # the whole grid with a hyperslab, then one of its members again (it is already there)
+            cands += [("gw", v, v["array"], [v["name"]])] * (4 if len(v["array"]["shape"]) > 1 else 1)
+        elif v["k"] == "st":
+            cands += [("m", v, m, [v["name"], m["name"]]) for m in v["members"] if m["k"] != "st" and m["shape"]]
+    if not cands:
+        return None
+    kind, v, b, path = rng.choice(cands)
+    shape = list(b["shape"])
+    unit = rng.random() < 0.4      # all but the last hyperslab with stride 1: the composition is numpy's x[s1][s2]
+
+    def unit_strides(sl):
+        return tuple(slice(s.start, s.stop, 1) for s in sl) if unit else sl
+
+    hs = [unit_strides(gen_hs_any(rng, shape, wide=True))]
+    more = rng.choice([1, 1, 1, 2])
+    for i in range(more):
+        src = compose_windows(shape, hs)
+        shown = [len(range(*s.indices(n))) for s, n in zip(src, shape)]
+        nxt = gen_hs_any(rng, shown)
+        hs.append(nxt if i == more - 1 else unit_strides(nxt))
+    if kind == "gw":
+        hs = hs[:1]
+        if rng.random() < 0.5:
+            # the last element of every axis: where a map paired with another axis' index shows
+            hs = [tuple(slice(n - 1, n, 1) if n else slice(0, 1, 1) for n in shape)]
+        # (naming the LAST map again never mattered: prefer the array and the maps before it)
+        member = rng.choice(([v["array"]] + v["maps"][:-1]) * 3 + v["maps"][-1:])["name"]
+        q = "%s%s,%s.%s" % (v["name"], hs_text(hs[0]), v["name"], member)
+        if rng.random() < 0.3:
+            q += ",%s.%s" % (v["name"], rng.choice([v["array"]] + v["maps"])["name"])
+        src = compose_windows(shape, hs)
+        return q, [("g", v["name"], [leaf(path + [b["name"]], b, src)] +
+                    [leaf(path + [m["name"]], m, (src[i],) if i < len(src) else None) for i, m in enumerate(v["maps"])])]
+    if not valid:
+        src = compose_windows(shape, hs[:-1])
+        shown = [len(range(*s.indices(n))) for s, n in zip(src, shape)]
+        bad = list(hs[-1])
+        i = rng.randrange(len(bad)) if bad else 0
+        bad[i] = slice(shown[i] + rng.choice([0, 1, 5]), shown[i] + 9, rng.choice([1, 2]))
+        hs[-1] = tuple(bad)
+    ref = ".".join(path)
+    q = ",".join(ref + hs_text(sl) for sl in hs)
+    src = compose_windows(shape, hs)
+    if src is None:
+        return q, None
+    if kind == "b":
+        expected = [("b", leaf(path, b, src))]
+    elif kind == "g":
+        expected = [("g", v["name"], [leaf(path + [b["name"]], b, src)] +
+                     [leaf(path + [m["name"]], m, (src[i],) if i < len(src) else None) for i, m in enumerate(v["maps"])])]
+    else:
+        expected = [("st", v["name"], [leaf(path, b, src)])]
+    return q, expected
 
 
 def leaf(idpath, b, sl=None):
@@ -621,24 +735,13 @@ def inject_fault(rng, spec, q, kind):
             return "".join("%%%02X" % ord(ch) if rng.random() < 0.3 else ch for ch in base)
         return base + rng.choice(["%ZZ", "%", "%5", "%5b1%5d", "%2", "%%", "%26", "%2C" + a, "%3E1", "%41", "%7e"])
     if kind == "repeated-item":
-        # the same variable named twice with a hyperslab: the second one is applied to what the first one left
-        # (valid when it still fits, an error when it does not; either way a complete answer)
-        v = rng.choice(arrays) if arrays else None
-        if v is None:
+        # the same variable named twice or three times with a hyperslab, any strides: each further one is applied to what
+        # the earlier ones left (numpy's Arrayterator composes them; valid when it still fits, an error when it does
+        # not; either way a complete answer)
+        r = gen_repeated_ce(rng, spec, valid=rng.random() < 0.6)
+        if r is None:
             return with_item("a[0],a[0]")
-        n = v["shape"][0]
-        i = rng.randrange(n) if n else 0
-        j = rng.randrange(i, n) if n else 0
-        # (unit strides only: how numpy's Arrayterator composes two STRIDED slices of one variable is not modelled)
-        form = rng.choice(["[%d]" % i, "[%d:%d]" % (i, j), "[%d:%d]" % (i, n + 3), "[0:%d]" % max(n - 1, 0)])
-        item = v["name"] + form
-        grids = [g for g in spec["vars"] if g["k"] == "g"]
-        if grids and rng.random() < 0.3:
-            g = rng.choice(grids)
-            m = g["array"]["shape"][0] if g["array"]["shape"] else 1
-            k = rng.randrange(m) if m else 0
-            item = "%s[%d]" % (g["name"], k) if rng.random() < 0.5 else "%s.%s[%d]" % (g["name"], g["array"]["name"], k)
-        return with_item(item + "," + item + ("," + item if rng.random() < 0.2 else ""))
+        return with_item(r[0])
     if kind == "dap4":
         return "dap4.ce=" + rng.choice([q, "/" + a, a, ""])
     # byte-level mutation of a valid CE
